@@ -7,7 +7,10 @@
 L1  every individual rewrite the real patterns perform on generated loop nests is recorded (the pattern
     classes' `match_and_rewrite` is wrapped in this process), the IR before/after is converted to the
     abstract loop IR, and Coq checks `canon (rewrite rule path before) = canon after`; at the fixpoint
-    the model must not have an applicable rule either (guards agree in both directions).
+    the model must not have an applicable rule either (guards agree in both directions).  For MoveMemrefDims the
+    replacement the real pattern chose (read off the rewritten users of the dim) is compared with the model's size
+    resolution at that position (`resolve_at`).  A pass that raises is a disagreement unless it is the deliberate
+    refusal on the model's class `prog_has_refused_min`.
 L2  the real IR before/after the whole pass is interpreted by the Coq trace semantics (vm_compute) on
     several run-time environments; the traces of side-effecting ops must be equal and the result must
     be well-formed SSA.  No model of the rewrites is involved.
@@ -20,16 +23,17 @@ import vlib
 from vlib import coqlist, zlit
 
 PROPERTY = "C17"
-MODEL_TARGETS = ["Model/C17Loop.vo"]
+MODEL_TARGETS = ["Model/C17Loop.vo", "Model/C17MoveDim.vo"]
 RULE = ("func.func bodies with scf.for nests of depth <= 3; bounds/steps: index constants 0..12 (also defined "
         "inside outer bodies), occasionally negative, zero, or a function argument; side-effecting ops "
         "(test.op with a tag, func.call to an external function) with 0-3 operands placed anywhere; pure arith "
         "ops; for reuse-memref-allocs additionally memref.alloc / memref.dim / memref.subview / affine.min with "
-        "sizes from constants, dims, induction variables and affine.min.  A case is non-trivial when at least "
+        "sizes from constants, dims, induction variables and affine.min, incl. sizes that are dims living in an enclosing loop body "
+        "with other uses (outerdim) and resolution chains through a dim kept in the loop (chain3).  A case is non-trivial when at least "
         "one rewrite changed the IR; distinct = distinct input programs")
 TRUSTED_BASE = [
     "Coq 8.16.1 kernel + vm_compute (no native_compute)",
-    "hand model coq/Model/C17Loop.v (IR, trace semantics, one function per rewrite pattern), tied by L1/L2 (this harness)",
+    "hand model coq/Model/C17Loop.v (IR, trace semantics, one function per rewrite pattern) + coq/Model/C17MoveDim.v (resolution at a path, refusal class), tied by L1/L2 (this harness)",
     "harness/props/c17.py: xDSL->abstract IR converter (structural), generators, Coq-literal printer; harness/xdsl_compat.py",
     "xDSL 0.70: parser, PatternRewriteWalker/GreedyRewritePatternApplier, is_side_effect_free, AffineMap.eval",
 ]
@@ -39,7 +43,12 @@ ASSUMPTIONS = [
     "loops without iter_args only (the patterns bail out on iter_args); scf.if and other region ops are not in the abstract IR",
     "buffers are observed through their sizes only: an opaque op receives the shape of a memref operand, not its identity or contents "
     "(hoisting an alloc makes all iterations share one buffer; contents of a fresh buffer are undefined)",
-    "MoveMemrefDims: the size resolution is modelled (move_dim_value); its IR surgery is covered by L2 only",
+    "MoveMemrefDims: the size resolution is modelled (move_dim_value) and compared with the replacement the real pattern "
+    "chose on every run (resolve_at); its IR surgery is covered by L2 only (ill-formed result = violation)",
+    "memref.load / memref.store are ordered events without heap contents (the loaded value is a free name): any change in the "
+    "number or order of load/store events is flagged, a wrong loaded value as such is not observable",
+    "a pass that raises, or whose result does not verify / leaves the abstract IR, is a violation - except the deliberate "
+    "RuntimeError('no constant value found') on the class prog_has_refused_min (Model/C17MoveDim.v), modelled as 'no rewrite'",
 ]
 
 BASE = 3000  # canonical renumbering starts here (above every free name)
@@ -314,7 +323,70 @@ class Gen:
 
     def mem(self, ind, idx, ivs, mems):
         rng = self.rng
-        k = rng.choice(["alloc", "alloc", "dim", "dim", "subview", "subview", "min", "chain", "chain", "chain2", "chain2"])
+        k = rng.choice(["alloc", "alloc", "dim", "dim", "subview", "subview", "min", "chain", "chain", "chain2", "chain2", "outerdim", "chain3"])
+        if k == "chain3":
+            # The resolution passes THROUGH a memref.dim of the same loop level (kept there by a non-alloc use) whose
+            # index differs from the index of the matched dim: dim(sv, 0) -> size operand %dA = dim(%m0, 1) -> new dim(%m0, 1).
+            if 0 not in self.consts or 1 not in self.consts:
+                k = "chain"
+            else:
+                ia, ib = rng.choice([(1, 0), (1, 0), (0, 1)])
+                ty = "memref<?x?xi8, strided<[?, 1], offset: ?>>"
+                dA = self.fresh("d")
+                self.emit(ind, f"{dA} = memref.dim %m0, {self.consts[ia]} : memref<?x?xi8>")
+                self.tag += 1
+                self.emit(ind, f'"test.op"({dA}) {{tag = {self.tag} : i32}} : (index) -> ()')
+                other = rng.choice(list(self.consts.values()))
+                sizes = [dA, other] if ib == 0 else [other, dA]
+                sv = self.fresh("sv")
+                off = rng.choice(ivs) if ivs else "0"
+                self.emit(ind, f"{sv} = memref.subview %m0[{off}, 0] [{sizes[0]}, {sizes[1]}] [1, 1] : memref<?x?xi8> to {ty}")
+                d = self.fresh("d")
+                self.emit(ind, f"{d} = memref.dim {sv}, {self.consts[ib]} : {ty}")
+                al = self.fresh("al")
+                self.emit(ind, f"{al} = memref.alloc({d}) : memref<?x4xi8>")
+                self.tag += 1
+                self.emit(ind, f'"test.op"({al}) {{tag = {self.tag} : i32}} : (memref<?x4xi8>) -> ()')
+                mems.append((al, "memref<?x4xi8>", None))
+                return
+        if k == "outerdim":
+            # The replacement found by MoveMemrefDims is an EXISTING memref.dim that lives in the enclosing loop
+            # body (it depends on that loop's induction variable, so it cannot leave it) and has other uses
+            # before / after the inner loop: the inner dim must be replaced without disturbing them.
+            if not ivs or 0 not in self.consts or 1 not in self.consts:
+                k = "chain"
+            else:
+                c0 = self.consts[0]
+                ty = "memref<?x4xi8, strided<[?, 1], offset: ?>>"
+                sv = self.fresh("sv")
+                self.emit(ind, f"{sv} = memref.subview %m0[{rng.choice(ivs)}, 0] [{rng.choice(ivs)}, 4] [1, 1] : memref<?x?xi8> to {ty}")
+                d = self.fresh("d")
+                self.emit(ind, f"{d} = memref.dim {sv}, {c0} : {ty}")
+                if rng.random() < 0.7:
+                    al = self.fresh("al")
+                    self.emit(ind, f"{al} = memref.alloc({d}) : memref<?x8xi8>")
+                    self.tag += 1
+                    self.emit(ind, f'"test.op"({al}) {{tag = {self.tag} : i32}} : (memref<?x8xi8>) -> ()')
+                j = self.fresh("i")
+                ub = rng.choice(list(self.consts.values()))
+                self.emit(ind, f"scf.for {j} = {c0} to {ub} step {self.consts[1]} {{")
+                sv2 = self.fresh("sv")
+                self.emit(ind + 1, f"{sv2} = memref.subview %m0[{rng.choice([j, '0'])}, 0] [{d}, 4] [1, 1] : memref<?x?xi8> to {ty}")
+                d2 = self.fresh("d")
+                self.emit(ind + 1, f"{d2} = memref.dim {sv2}, {c0} : {ty}")
+                al2 = self.fresh("al")
+                self.emit(ind + 1, f"{al2} = memref.alloc({d2}) : memref<?x4xi8>")
+                self.tag += 1
+                self.emit(ind + 1, f'"test.op"({al2}, {j}) {{tag = {self.tag} : i32}} : (memref<?x4xi8>, index) -> ()')
+                self.emit(ind, "}")
+                if rng.random() < 0.4:
+                    al = self.fresh("al")
+                    self.emit(ind, f"{al} = memref.alloc({d}) : memref<?x8xi8>")
+                    self.tag += 1
+                    self.emit(ind, f'"test.op"({al}) {{tag = {self.tag} : i32}} : (memref<?x8xi8>) -> ()')
+                idx.append(d)
+                self.dims = getattr(self, "dims", []) + [d]
+                return
         if k in ("alloc", "dim") and rng.random() < 0.35 and 0 in self.consts and 1 in self.consts:
             # a load from and (mostly) a store to a loop-invariant address of a buffer defined outside the loops
             a, b = self.consts[rng.choice([0, 1])], self.consts[rng.choice([0, 1])]
@@ -535,6 +607,19 @@ CORPUS = {
     "test.op"(%i, %al) : (index, memref<?x4xi8>) -> ()
   }
   func.return } }""",
+        # the deliberate refusal: an affine.min whose first map result is not a constant (RuntimeError)
+        """builtin.module { func.func @f(%a0 : index, %m0 : memref<?x?xi8>) {
+  %c0 = arith.constant 0 : index
+  %c10 = arith.constant 10 : index
+  %c8 = arith.constant 8 : index
+  scf.for %i = %c0 to %c10 step %c8 {
+    %sz = affine.min affine_map<(d0) -> (-d0 + 10, 8)>(%i)
+    %sv = memref.subview %m0[%i, 0] [%sz, 4] [1, 1] : memref<?x?xi8> to memref<?x4xi8, strided<[?, 1], offset: ?>>
+    %d = memref.dim %sv, %c0 : memref<?x4xi8, strided<[?, 1], offset: ?>>
+    %a = memref.alloc(%d) : memref<?x4xi8>
+    "test.op"(%sv, %a, %sz) : (memref<?x4xi8, strided<[?, 1], offset: ?>>, memref<?x4xi8>, index) -> ()
+  }
+  func.return } }""",
     ],
 }
 
@@ -616,6 +701,7 @@ class Recorder:
                 before = snapshot(rec.fn, rec.nm)
             except (Unsupported, ValueError):
                 before = None
+            pre = rec.observe_pre(op) if rule == "MoveDim" and before is not None and op.name == "memref.dim" else None
             orig(self_, op, rewriter)
             # MoveMemrefDims edits the IR without telling the rewriter: compare the snapshots as well
             try:
@@ -626,8 +712,39 @@ class Recorder:
                 if before is None or after is None:
                     rec.records.append({"rule": rule, "unsupported": True})
                     return
-                rec.records.append({"rule": rule, "path": path, "before": before, "after": after})
+                rec.records.append({"rule": rule, "path": path, "before": before, "after": after,
+                                    "observed": rec.observe_post(pre) if pre is not None else None})
         return mar
+
+    # What did MoveMemrefDims put in the place of the matched memref.dim?  Read off the operand slot of one
+    # former user of the dim after the rewrite and rendered as a `repl` of the model (compared with
+    # `resolve_at` in Coq).  Values known before the rewrite are existing ops (RVar), others are new ops.
+    def observe_pre(self, op):
+        from xdsl.dialects import affine
+        uses = [(u.operation, u.index) for u in op.results[0].uses]
+        mins = [(o, len(list(o.results[0].uses))) for o in self.fn.walk() if isinstance(o, affine.MinOp)]
+        return {"dim": op.results[0], "uses": uses, "known": set(self.nm.ids.keys()), "mins": mins}
+
+    def observe_post(self, pre):
+        from xdsl.dialects import arith, memref
+        if not pre["uses"]:
+            return None  # a dim without users: nothing to observe
+        o, i = pre["uses"][0]
+        nv = o.operands[i]
+        if nv is pre["dim"]:
+            return None
+        owner = nv.owner
+        if id(nv) in pre["known"]:
+            return f"RVar {nat(self.nm.v(nv))}"
+        if isinstance(owner, arith.ConstantOp):
+            c = owner.value.value.data
+            for m, n in pre["mins"]:
+                if n > 0 and len(list(m.results[0].uses)) == 0:
+                    return f"RMin {nat(self.nm.v(m.results[0]))} {zlit(c)}"
+            return f"RConst {zlit(c)}"
+        if isinstance(owner, memref.DimOp) and isinstance(owner.index.owner, arith.ConstantOp):
+            return f"RNewDim {nat(self.nm.v(owner.source))} {zlit(owner.index.owner.value.value.data)}"
+        return "RVar 999999"  # something the model has no name for: must disagree
 
 
 def run_case(text, family, record=True):
@@ -687,11 +804,43 @@ def loops_of(fn):
     return out
 
 
-HEADER = "From Snax Require Import Base.Prelude Model.C17Loop.\nLocal Open Scope nat_scope.\n"
+HEADER = "From Snax Require Import Base.Prelude Model.C17Loop Model.C17MoveDim.\nLocal Open Scope nat_scope.\n"
 L1_TEST = ("fun c : list var * list op * rule * list nat * list op => match c with (args, b, r, p, a) => "
            "match rewrite_in args r p b with Some b' => (negb (wf_prog args b) || wf_prog args b') && block_eqb (canon %d%%nat b') (canon %d%%nat a) | None => false end end" % (BASE, BASE))
 FIX_TEST = ("fun c : list op * rule * list nat => match c with (b, r, p) => "
             "match rewrite r p b with Some _ => false | None => true end end")
+
+MD_TEST = ("fun c : list op * list nat * repl => match c with (b, p, r) => "
+           "optrepl_eqb (resolve_at p [] false b) (Some r) end")
+
+REFUSAL = "pass-error:RuntimeError:no constant value found"
+
+
+def crash_kind(r):
+    """unsupported: the converter / generator cannot express the program (skipped);
+    refusal?: the deliberate RuntimeError of get_constant_value_from_affine_min (excused iff the model's
+    predicate prog_has_refused_min holds on the input); pass-error: any other exception of the pass, a result
+    that fails verification, or a result outside the abstract IR: never skipped."""
+    e = r["error"]
+    if e.startswith(REFUSAL) and "before" in r:
+        return "refusal?"
+    if e.startswith("pass-error") or e.startswith("unsupported-after"):
+        return "pass-error"
+    return "unsupported"
+
+
+def unexcused(crashes):
+    """[(family, run_case result with error)] -> those that are not a deliberate refusal of the model's class."""
+    out = [(fam, r) for fam, r in crashes if crash_kind(r) == "pass-error"]
+    ask = [(fam, r) for fam, r in crashes if crash_kind(r) == "refusal?"]
+    if ask:
+        txt = HEADER + f"Definition cases : list (list op) := {coqlist(r['before'][1] for _, r in ask)}.\nEval vm_compute in failing prog_has_refused_min cases.\n"
+        ok, res = vlib.coq_eval("c17refuse", txt, timeout=600)
+        lst = vlib.parse_eval_list(res) if ok else None
+        if lst is None:
+            raise RuntimeError("refusal cases file failed: " + res[-1500:])
+        out += [ask[i] for i in lst]
+    return out
 
 
 def gen_text(rng, family):
@@ -752,15 +901,28 @@ def correspondence(ctx):
     for i in range(n):
         fam = "canon" if i % 5 < 3 else "reuse"
         todo.append((fam, gen_text(rng, fam)))
+    md_cases, md_meta = [], []
+    crashes = []
     for fam, text in todo:
         r = run_case(text, fam)
         if "error" in r:
-            stats["pass-error" if r["error"].startswith("pass") else "unsupported"] += 1
-            ctx.count({"L1": fam, "error": r["error"]}, False, None, "L1-" + r["error"].split(":")[0])
+            kind = crash_kind(r)
+            stats[kind] = stats.get(kind, 0) + 1
+            ctx.count({"L1": fam, "error": r["error"]}, False, None, "L1-" + kind)
+            if kind in ("pass-error", "refusal?"):
+                crashes.append((fam, r))
             continue
         nrec = 0
         for rec in r["records"]:
-            if rec.get("unsupported") or rec["rule"] == "MoveDim":
+            if rec.get("unsupported"):
+                continue
+            if rec["rule"] == "MoveDim":
+                # the size resolution of the model must name the replacement the real pattern chose
+                if rec.get("observed"):
+                    md_cases.append(f"({rec['before'][1]}, {coqlist(nat(x) for x in rec['path'])}, {rec['observed']})")
+                    md_meta.append({"family": fam, "rule": "MoveDim", "path": rec["path"], "observed": rec["observed"], "program": text})
+                    ctx.histogram["rewrite-MoveDim"] = ctx.histogram.get("rewrite-MoveDim", 0) + 1
+                    nrec += 1
                 continue
             rule, mpath = model_loc(rec["rule"], rec["path"])
             args, b = rec["before"]
@@ -790,7 +952,8 @@ def correspondence(ctx):
                 for j in range(nbody):
                     fix_cases.append(f"({b2}, RHoist {nat(j)}, {pl})")
                     fix_meta.append({"family": fam, "rule": "RHoist", "path": path + [j], "program": text})
-    ctx.extra["l1_rewrites_compared"] = len(cases)
+    ctx.extra["l1_rewrites_compared"] = len(cases) + len(md_cases)
+    ctx.extra["l1_movedim_resolutions_compared"] = len(md_cases)
     ctx.extra["l1_fixpoint_candidates"] = len(fix_cases)
     ctx.extra["l1_skipped"] = stats
     texts, shards = [], []
@@ -801,13 +964,16 @@ def correspondence(ctx):
     for s in range(0, len(fix_cases), 4 * SH):
         texts.append(HEADER + f"Definition cases : list (list op * rule * list nat) := {coqlist(fix_cases[s:s + 4 * SH])}.\nEval vm_compute in failing ({FIX_TEST}) cases.\n")
         shards.append(("fix", s))
-    dis = []
+    for s in range(0, len(md_cases), 2 * SH):
+        texts.append(HEADER + f"Definition cases : list (list op * list nat * repl) := {coqlist(md_cases[s:s + 2 * SH])}.\nEval vm_compute in failing ({MD_TEST}) cases.\n")
+        shards.append(("md", s))
+    dis = [{"name": "L1:pass-crashed", "family": fam, "error": r["error"], "program": r["text"]} for fam, r in unexcused(crashes)]
     for (kind, s), (ok, out) in zip(shards, eval_sections("c17l1_", texts)):
         if not ok:
             return [{"name": "cases-file", "detail": out[-2000:]}]
         for idx in out:
-            m = (meta if kind == "rw" else fix_meta)[s + idx]
-            dis.append({"name": "L1:rewrite" if kind == "rw" else "L1:model-applies-at-fixpoint", **m})
+            m = {"rw": meta, "fix": fix_meta, "md": md_meta}[kind][s + idx]
+            dis.append({"name": {"rw": "L1:rewrite", "fix": "L1:model-applies-at-fixpoint", "md": "L1:move-dim-resolution"}[kind], **m})
     return dis
 
 
@@ -853,6 +1019,7 @@ def search(ctx, deep=False):
     rng = ctx.rng
     n = ctx.n(220, 3000) * (2 if deep else 1)
     batch = []
+    crashes = []
     todo = [("canon", t) for t in CORPUS["canon"]] + [("reuse", t) for t in CORPUS["reuse"]]
     for i in range(n):
         fam = "canon" if i % 2 == 0 else "reuse"
@@ -860,7 +1027,10 @@ def search(ctx, deep=False):
     for fam, text in todo:
         r = run_case(text, fam, record=(fam == "reuse"))
         if "error" in r:
-            ctx.count({"L2": fam, "error": r["error"]}, False, None, "L2-" + r["error"].split(":")[0])
+            kind = crash_kind(r)
+            ctx.count({"L2": fam, "error": r["error"]}, False, None, "L2-" + kind)
+            if kind != "unsupported":
+                crashes.append((fam, r))
             continue
         envs = inputs_for(rng, fam, 4)
         changed = r["before"][1] != r["after"][1]
@@ -869,12 +1039,15 @@ def search(ctx, deep=False):
     codes = l2_eval(batch)
     fails = []
     seen = set()
+    for fam, r in unexcused(crashes):
+        # the pass raised (other than the deliberate refusal on its class) or produced IR that does not verify
+        if ("pass-crashed", None) not in seen:
+            seen.add(("pass-crashed", None))
+            fails.append({"what": "pass-crashed", "klass": None, "family": fam, "program": r["text"], "error": r["error"], "envs": []})
     for (fam, r, envs), code in zip(batch, codes):
         if code == 0:
             continue
-        klass = "move_dim_affine_min" if code == 3 else None
-        if code == 2 and fam == "reuse" and any(x.get("rule") == "MoveDim" for x in r.get("records", [])):
-            klass = "move_dim_use_before_def"
+        klass = "move_dim_affine_min" if code == 3 else None   # an ill-formed result (code 2) is never excused
         what = {1: "trace-differs", 2: "result-not-well-formed-ssa", 3: "trace-differs"}[code]
         if (what, klass) in seen:
             continue
@@ -892,7 +1065,7 @@ def replay_known(ctx, entry):
     if "error" in r:
         return False
     codes = l2_eval([(w["family"], r, [tuple(e) for e in w["envs"]])])
-    return codes[0] == (2 if entry["class"] == "move_dim_use_before_def" else 3)
+    return codes[0] == 3
 
 
 def replay(ctx, obj):
